@@ -371,5 +371,5 @@ pub fn image(reg: &PortableRegistry, m: MetaType, id: u32) -> Result<(), String>
 }
 
 pub fn mt<T: TypeInfo + ?Sized + 'static>() -> MetaType {
-    scale_info::meta_type::<T>()
+    MetaType::new::<T>()
 }
